@@ -193,9 +193,9 @@ def run_accept(sc):
     if sc["cmask"] == "FLEX":
         want = True
     elif sc["cmask"] == "NONE":
-        if sc["pmask"] in ("nomask", "all_false"):
-            return viol      # is a producer with a fixed mask that masks nothing "unmasked"? the rules do not say
-        want = sc["pmask"] == "NONE"
+        # is a producer with a fixed mask that masks nothing "unmasked"? the rules do not say whether to accept - but
+        # if the link is accepted, the consumer that demanded unmasked data must get plain arrays
+        want = None if sc["pmask"] in ("nomask", "all_false") else sc["pmask"] == "NONE"
     elif sc["cmask"] == "same_object":
         want = bool(np.array_equal(pbits, cbits))
     elif sc["cmask"] in ("nomask", "all_false"):
@@ -215,6 +215,18 @@ def run_accept(sc):
         got = False
     except Exception as e:
         v("mask-accept", type(e).__name__, f"{desc(sc)}: exchange raised {type(e).__name__}: {e}")
+        return viol
+    if want is None:
+        if got:
+            field = ma.field([1.0, 10.0, 100.0, 1000.0][: ma.dim + 1])
+            try:
+                out.push_data(np.ma.array(field.copy(), mask=pmask, shrink=False), dt(0))
+                d = inp.pull_data(dt(0)).magnitude
+            except Exception:      # noqa: BLE001   (refusing the data is as good as refusing the link)
+                return viol
+            if np.ma.isMaskedArray(d):
+                v("mask-accept", "none-consumer-got-masked", f"{desc(sc)}: the link was accepted and the consumer that demanded "
+                  "unmasked data received a masked array")
         return viol
     if got != want:
         v("mask-accept", f"{sc['cmask']}<-{sc['pmask']}:{sc['cgrid']}",
